@@ -416,6 +416,61 @@ fn main() {
             check_pattern(t, p, &names);
         });
     }
+    // spellings: the same component values written differently ('.', '_' and 'pl' all stand for
+    // a 0 component, leading zeros, a trailing separator) in the two bounds of a range and in
+    // the candidate - a range is about values, never about the text the bounds have in common;
+    // and texts that a lenient number parser would read differently from the rule: a sign or
+    // another character between 'nb' and its digits
+    {
+        let triples: [(u32, u32, u32); 7] = [(1, 2, 3), (1, 2, 5), (1, 2, 9), (1, 0, 0), (1, 0, 5), (1, 3, 0), (2, 0, 0)];
+        let spell: [&dyn Fn(u32, u32, u32) -> String; 6] = [
+            &|a, b, c| format!("{}.{}.{}", a, b, c),
+            &|a, b, c| format!("{}.0{}.{}", a, b, c),
+            &|a, b, c| format!("0{}.{}.00{}", a, b, c),
+            &|a, b, c| format!("{}_{}_{}", a, b, c),
+            &|a, b, c| format!("{}pl{}.{}.", a, b, c),
+            &|a, b, c| format!("{}.{}.{}.0", a, b, c),
+        ];
+        let mut vers: Vec<String> = vec![];
+        for (a, b, c) in triples {
+            for sp in spell {
+                vers.push(sp(a, b, c));
+            }
+        }
+        vers.extend(["1...", "1..", "1.2.", "1.2..5", "1.02", "01.2"].iter().map(|x| x.to_string()));
+        let mut pats: Vec<String> = vec![];
+        for (i, lo) in vers.iter().enumerate() {
+            for (j, hi) in vers.iter().enumerate() {
+                // quick tier: every third (lower, upper) pair
+                if !run.thorough() && (i + 2 * j) % 3 != 0 {
+                    continue;
+                }
+                for (o1, o2) in [(">=", "<"), (">", "<=")] {
+                    pats.push(format!("p{}{}{}{}", o1, lo, o2, hi));
+                }
+            }
+        }
+        let mut names: Vec<String> = vers.iter().map(|v| format!("p-{}", v)).collect();
+        // signs and other characters between 'nb' and its digits
+        let mut signed: Vec<String> = vec![];
+        for stem in ["1.0", "2.4", ""] {
+            for tail in ["nb+5", "nb-5", "nb+0", "nb+", "nb5", "nb7", "nb05", "nb+05", "nb5+", "nb 5", "nb_5", "nb.5", "NB+5", "nb++5", "+5", "-5", ".+5", "nb+7", "nb"] {
+                signed.push(format!("{}{}", stem, tail));
+            }
+        }
+        for v in &signed {
+            names.push(format!("p-{}", v));
+            for o in OPS.iter() {
+                pats.push(format!("p{}{}", o.text(), v));
+            }
+        }
+        run.bound(format!("spellings: {} patterns (two-bound ranges over 7 value triples in 6 spellings; four operators x 57 texts with a sign or another character between 'nb' and its digits) x {} names", pats.len(), names.len()));
+        par_items(&run, "C02 spellings", &pats, |_, p, t| {
+            t.states += 1;
+            t.transitions += names.len() as u64;
+            check_pattern(t, p, &names);
+        });
+    }
     // padded numbers: small values behind 0..300 zeros (a digit run is its numeric value however
     // many digits it is written with), as a component, as a later component and as the revision,
     // in bounds and in candidates
